@@ -1,6 +1,7 @@
 import SlugModel.Lemmas.TrEq_isWithin
 import SlugModel.Lemmas.TrEq_validSymlink
 import SlugModel.Lemmas.TrEq_newUnpackInfo
+import SlugModel.Lemmas.UnpackInv
 /-!
 # C01 (tie by translation)
 
@@ -31,5 +32,105 @@ theorem C01_tie_newUnpackInfo (fs : FS) (dst : Str) (e : Entry) :
        | some p => (({ path := p, typeflag := e.typ } : Go.UnpackInfo), false)
        | none => (({ path := [], typeflag := Char.ofNat 0 } : Go.UnpackInfo), true)) :=
   gen_newUnpackInfo fs dst e
+
+/-! ### The property, stated over the translated function -/
+
+/-- the entry name with one leading `/` removed (the first statement of `NewUnpackInfo`) -/
+def dropLeadSlash (name : Str) : Str :=
+  match name with
+  | '/' :: r => r
+  | n => n
+
+/-- the header fields `NewUnpackInfo` looks at, as an entry of the model (the other fields are not read) -/
+def hdrEntry (name : Str) (typ : Char) : Entry :=
+  { name := name, typ := typ, mode := 0, mtime := 0, link := [], body := [] }
+
+/-- what a successful run of the model's `newUnpackInfo` went through: every test on the way to `some` -/
+theorem newUnpackInfo_some_checks {fs : FS} {dst : Str} {e : Entry} {path : Str}
+    (h : newUnpackInfo fs dst e = some path) :
+    path = pathJoin dst (dropLeadSlash e.name) ∧
+    isWithin (pathClean dst) (pathClean path) = true ∧
+    (∃ rel, pathRel (pathClean dst) (pathClean path) = some rel ∧
+      lstatWalk fs dst (splitOn '/' rel) = true) := by
+  have key : ∀ nm : Str,
+      (if !isWithin (pathClean dst) (pathClean (pathJoin dst nm)) then none
+       else match pathRel (pathClean dst) (pathClean (pathJoin dst nm)) with
+        | none => none
+        | some rel =>
+          if !lstatWalk fs dst (splitOn '/' rel) then none
+          else if !(e.isDir || e.isSymlink || e.isRegular || e.isTypeX) then none
+          else some (pathJoin dst nm)) = some path →
+      path = pathJoin dst nm ∧
+      isWithin (pathClean dst) (pathClean path) = true ∧
+      (∃ rel, pathRel (pathClean dst) (pathClean path) = some rel ∧
+        lstatWalk fs dst (splitOn '/' rel) = true) := by
+    intro nm h
+    split at h
+    · cases h
+    · rename_i hw
+      split at h
+      · cases h
+      · rename_i rel hrel
+        split at h
+        · cases h
+        · rename_i hwalk
+          split at h
+          · cases h
+          · cases h
+            refine ⟨rfl, by simpa using hw, rel, hrel, by simpa using hwalk⟩
+  exact key _ h
+
+/-- **C01_gen_newUnpackInfo_within.** The Go function `NewUnpackInfo` (internal/unpackinfo/unpackinfo.go), as
+translated: whenever it returns an `UnpackInfo` without error for the filesystem `fs`, the destination `dst` and
+a header with the given name and type flag, then
+
+* the extraction path it stores is `filepath.Join(dst, name)` with one leading `/` of the name removed, and the
+  stored type flag is the header's;
+* that path, cleaned, is lexically inside the cleaned destination (`isWithin`);
+* the path of the entry relative to the destination exists (`filepath.Rel` succeeded) and the component-wise
+  `Lstat` walk from `dst` along it passed at the time of the call: no component between `dst` and the entry,
+  the final one excepted, is a symbolic link in `fs` (nor fails `Lstat` with an error other than "not exist";
+  below a component that does not exist nothing is examined). -/
+theorem C01_gen_newUnpackInfo_within (fs : FS) (dst name : Str) (typ : Char) (info : Go.UnpackInfo)
+    (h : Gen.newUnpackInfo fs dst name typ = (info, false)) :
+    info.path = pathJoin dst (dropLeadSlash name) ∧ info.typeflag = typ ∧
+    isWithin (pathClean dst) (pathClean info.path) = true ∧
+    (∃ rel, pathRel (pathClean dst) (pathClean info.path) = some rel ∧
+      lstatWalk fs dst (splitOn '/' rel) = true) := by
+  have hg := gen_newUnpackInfo fs dst (hdrEntry name typ)
+  simp only [hdrEntry] at hg
+  rw [hg] at h
+  cases hn : newUnpackInfo fs dst (hdrEntry name typ) with
+  | none => simp only [hdrEntry] at hn; rw [hn] at h; simp at h
+  | some p =>
+    have hc := newUnpackInfo_some_checks hn
+    simp only [hdrEntry] at hn hc
+    rw [hn] at h
+    have hi : info = { path := p, typeflag := typ } := by
+      have := (Prod.mk.inj h).1; exact this.symm
+    subst hi
+    exact ⟨hc.1, rfl, hc.2.1, hc.2.2⟩
+
+/-- **C01_gen_newUnpackInfo_no_link_above.** The same in terms of the filesystem's bindings: for a destination
+that is an absolute clean path other than `/` and, in `fs`, a real directory all of whose ancestors are real
+directories, a path the translated `NewUnpackInfo` returns without error is absolute and clean, its components
+extend those of `dst`, and no proper prefix of it is bound to a symbolic link in `fs` at the time of the call. -/
+theorem C01_gen_newUnpackInfo_no_link_above (fs : FS) (dst name : Str) (typ : Char) (info : Go.UnpackInfo)
+    (hdst : DstOK dst) (h : Gen.newUnpackInfo fs dst name typ = (info, false)) :
+    AbsClean info.path ∧ pathSegs dst <+: pathSegs info.path ∧
+    (KeysPhysical fs → RealDir fs (pathSegs dst) → NoLinkAbove fs (pathSegs info.path)) := by
+  have hg := gen_newUnpackInfo fs dst (hdrEntry name typ)
+  simp only [hdrEntry] at hg
+  rw [hg] at h
+  cases hn : newUnpackInfo fs dst (hdrEntry name typ) with
+  | none => simp only [hdrEntry] at hn; rw [hn] at h; simp at h
+  | some p =>
+    have hc := newUnpackInfo_facts hdst hn
+    simp only [hdrEntry] at hn
+    rw [hn] at h
+    have hi : info = { path := p, typeflag := typ } := by
+      have := (Prod.mk.inj h).1; exact this.symm
+    subst hi
+    exact hc
 
 end Slug
